@@ -864,18 +864,11 @@ def cls_property_refs(case):
     if parts[0] == "O4":
         edit = case.get("failed_edit", {})
         linked = {name for names in links.values() for name in names}
-        if edit.get("side") != "orig" or edit.get("status") != "ok":
-            return False
-        if edit.get("kind") == "rename":
-            return edit.get("symbol_at_copy") in linked
-        if edit.get("kind") == "retype":
-            # the copy's (shared) ArrayType still refers to the original's
-            # symbol in a bound: once that symbol is no longer an integer
-            # the copy's type cannot be printed/written any more
-            bounds = set(links.get("decl_shape", [])) | \
-                set(links.get("decl_struct", []))
-            return edit.get("symbol_at_copy") in bounds
-        return False
+        # the copy still holds the ORIGINAL's symbol object at those sites,
+        # so any successful edit of that symbol in the original (rename,
+        # new datatype, new initial value, ...) shows through the copy
+        return (edit.get("side") == "orig" and edit.get("status") == "ok"
+                and edit.get("symbol_at_copy") in linked)
     return False
 
 
@@ -950,9 +943,12 @@ def run(ctx):
 
         try:
             res = check_case(case, report, note)
-        except Failure:
-            raise
         except Exception as err:        # pylint: disable=broad-except
+            # oracle failures pass through (the runner may live in
+            # __main__, so its Failure class is recognised by shape)
+            if isinstance(err, Failure) or (hasattr(err, "bucket")
+                                            and hasattr(err, "case")):
+                raise
             os.makedirs(os.path.join(VERIF, "failures"), exist_ok=True)
             path = os.path.join(VERIF, "failures",
                                 f"C15_harness_shard{ctx.shard}.json")
